@@ -38,7 +38,10 @@ RULE = ("widths: W arrays of 0-12 groups (both forms, lists inline or by referen
         "CMaps: maps of 0-300 entries (runs, isolated codes, supplementary planes, empty strings) through write_cmap "
         "(judged by a strict CMap reader written from the specification), write->read, and conformant CMap texts with both range "
         "forms and spelling variation (hex case, white-space, comments, 1-byte codes, section counts, prologue) through parse_cmap "
-        "and Font::to_unicode; UTF-16BE byte strings; mutated texts (model + no panic).  "
+        "and Font::to_unicode; the spellings of C19_cmap_read_spelled the renderer does not produce (no white-space between delimited tokens, "
+        "odd digit counts, NUL / form feed / comments between operands, sections after endcmap, data ending inside a comment); "
+        "section keywords inside literal strings (finding C19-f); simple fonts with ill-formed dictionaries (FirstChar > LastChar, negative "
+        "or extreme FirstChar, Widths shorter / longer than the range); UTF-16BE byte strings; mutated texts (model + no panic).  "
         "non-trivial = a width case with at least one group or a map/text with at least 2 entries; distinct by full input")
 CASE_TIMEOUT = 20.0
 
